@@ -397,4 +397,3 @@ func c06Run(rc *simrt.RunCtx, tail bool) {
 	}
 	_ = simrt.Now
 }
-
